@@ -16,6 +16,12 @@ def install():
 
     def traced(self, request, context):
         tr = _STATE["trace"]
+        if tr is not None and tr and tr[-1][1] == "leaf" and _STATE.get("leaf_opts") is not None and list(request) == _STATE["leaf_opts"]:
+            # the "leaf" handed exactly its own remaining request to another RequestManager (e.g. func is a component's
+            # apply_request instead of its _request_manager): that is delegation, keep following the path
+            d0, _, k0, _ = tr[-1]
+            tr[-1] = (d0, "delegate", k0, "via-function")
+            _STATE["leaf_opts"] = None
         if tr is not None and not (tr and tr[-1][1] in ("leaf", "keymiss", "refused", "empty")):
             if not request:
                 tr.append((len(tr), "empty", None, None))
@@ -38,6 +44,7 @@ def install():
                         tr.append((len(tr), "delegate", key, None))
                     else:
                         tr.append((len(tr), "leaf", key, None))
+                        _STATE["leaf_opts"] = list(request[1:])
         return orig(self, request, context)
 
     RequestManager.__call__ = traced
@@ -46,6 +53,7 @@ def install():
 
 def start():
     _STATE["trace"] = []
+    _STATE["leaf_opts"] = None
 
 
 def stop() -> List[Tuple]:
@@ -84,6 +92,14 @@ def dry_run(root_rm, request: List, context: Any = None) -> Tuple[bool, str, int
             return (False, "refused", depth, type(rt.validator).__name__)
         if isinstance(rt.func, RequestManager):
             rm = rt.func
+            rest = opts
+            depth += 1
+            continue
+        # a handler that is some component's bound apply_request forwards the remaining request to that component's
+        # request manager: the permission rules below it are still "on the path"
+        owner = getattr(rt.func, "__self__", None)
+        if getattr(rt.func, "__name__", "") == "apply_request" and isinstance(getattr(owner, "_request_manager", None), RequestManager):
+            rm = owner._request_manager
             rest = opts
             depth += 1
             continue
